@@ -448,6 +448,8 @@ def main(argv):
                 )
             else:
                 failure = run_workers(prop, tier, seed, stats)
+            if failure is None and tier == "thorough":
+                failure = run_fuzz(prop, seed, stats)
     except HarnessError as e:
         print(f"HARNESS-ERROR property={prop_id}: {e}")
         return 2
@@ -475,6 +477,73 @@ def main(argv):
         print(f"VIOLATION property={prop_id} replay={replay_path}")
         return 1
     return 0
+
+
+def run_fuzz(prop, seed, stats):
+    """Thorough tier, dispatcher-core properties: a coverage-guided campaign
+    (atheris / libFuzzer) over the same cases and oracle (jsverif/fuzz.py)."""
+    import shutil
+    import tempfile
+
+    from .fuzz import FUZZ_PROPS
+
+    if prop.ID not in FUZZ_PROPS:
+        return None
+    try:
+        sys.path.append(os.path.join(ROOT, ".deps"))
+        import atheris  # noqa: F401
+    except ImportError:
+        stats.notes.append("atheris not installed: coverage-guided campaign skipped")
+        return None
+    runs = int(float(os.environ.get("VERIF_FUZZ_RUNS", "150000")) * float(os.environ.get("VERIF_SCALE", "1")))
+    n_proc = min(N_WORKERS, 8)
+    out_root = tempfile.mkdtemp(prefix=f"fuzz-{prop.ID}-", dir=os.path.join(OUT, "evidence") if os.path.isdir(os.path.join(OUT, "evidence")) else None)
+    procs = []
+    for i in range(n_proc):
+        out = os.path.join(out_root, f"p{i}")
+        os.makedirs(out)
+        procs.append(
+            (
+                out,
+                subprocess.Popen(
+                    [sys.executable, os.path.join(ROOT, "check"), "--fuzz", prop.ID, str(runs // n_proc), str(worker_seed(seed, prop.ID, 1000 + i) % (2**31 - 1) + 1), out],
+                    cwd=ROOT,
+                    stdout=subprocess.DEVNULL,
+                    stderr=subprocess.DEVNULL,
+                ),
+            )
+        )
+    failure = None
+    execs = corpus = 0
+    for out, p in procs:
+        p.wait()
+        sp = os.path.join(out, "stats.json")
+        if os.path.exists(sp):
+            with open(sp, encoding="utf-8") as f:
+                d = json.load(f)
+            execs += d["execs"]
+            stats.nontrivial_hashes.update(d["hashes"])
+            for k, v in d["labels"].items():
+                stats.labels["fuzz:" + k] = stats.labels.get("fuzz:" + k, 0) + v
+            for smp in d["samples"]:
+                if len(stats.samples) < 4:
+                    stats.samples.append(smp)
+        corpus += len(os.listdir(os.path.join(out, "corpus"))) if os.path.isdir(os.path.join(out, "corpus")) else 0
+        fp_ = os.path.join(out, "failure.json")
+        if os.path.exists(fp_) and failure is None:
+            with open(fp_, encoding="utf-8") as f:
+                fj = json.load(f)
+            failure = Failure(fj["case"], fj["clause"], fj["message"], fj["details"], fj["traceback"])
+    shutil.rmtree(out_root, ignore_errors=True)
+    stats.evaluations += execs
+    stats.counters["fuzz_execs"] = execs
+    stats.counters["fuzz_corpus_files"] = corpus
+    stats.counters["fuzz_processes"] = n_proc
+    if failure is not None:
+        again = run_case(prop, failure.case, Ctx(prop.ID, (), "thorough"))
+        if again is not None:
+            failure = again
+    return failure
 
 
 def run_workers(prop, tier, seed, stats):
